@@ -385,7 +385,7 @@ where
              'buf@ == buf0 + wire_of::<T>(enc0, max0, source.p.log@.skip(n0))',
              'buf.reserve_bound@ < 0',
          ])},
-         ensures=[Clause('STEP_enc_step', 'enc_step(*old(self), *final(self), r)', ['C01', 'C03', 'C06'])])
+         ensures=[Clause('STEP_enc_step', 'enc_step(*old(self), *final(self), r)', ['C01', 'C03', 'C06', 'C02'])])   # callee of EncodeBody::poll_frame (C02)
 
     u.fn(E, 'trailers', within='impl EncodeState', header='impl EncodeState {', close=True,
          ensures=[
